@@ -12,7 +12,7 @@ import numpy as np
 
 from ..core import import_library
 from ..gen import terms as G
-from ..probe import Probe, Reach, check_unmutated, snapshot_arrays
+from ..probe import Probe, Reach, ResultKeeper, check_unmutated, snapshot_arrays
 from ..ref import terms as R
 
 WORKERS = {"quick": 1, "thorough": 16}
@@ -31,6 +31,7 @@ class MembershipMonitor:
         self.table = {} if table else None  # (kind, params, h) -> {x: y}
         self.sel = __import__("random").Random(f"c03sel:{ctx.seed}:{ctx.shard}")
         self.orig = {}
+        self.keeper = None  # ResultKeeper, set by the check's own workload
 
     def install(self, probe):
         for kind in list(R.REF) + ["Constant"]:
@@ -39,6 +40,8 @@ class MembershipMonitor:
 
     def _after(self, args, kwargs, token, result, exc):
         x = check_unmutated(self.ctx, f"{type(args[0]).__name__}.membership", args, token)
+        if self.keeper is not None and exc is None:
+            self.keeper.after_call(f"{type(args[0]).__name__}.membership", result, args[1:2])
         self.judge(args[0], x, result, exc)
 
     def judge(self, term, x, result, exc):
@@ -73,7 +76,8 @@ class MembershipMonitor:
             pick = set(self.sel.sample(range(n), 48))
             for b in G.breakpoints({"cls": kind, "params": list(p)}):
                 pick |= set(np.argsort(np.abs(xs - b))[:3].tolist())
-            pick |= set(np.flatnonzero(~np.isfinite(xs))[:4].tolist())
+            pick |= set(np.flatnonzero(~np.isfinite(xs))[:12].tolist()) | set(np.flatnonzero(~np.isfinite(xs))[-4:].tolist())
+            pick |= set(range(8)) | set(range(n - 8, n))  # both ends (the last, incomplete block of a block-wise evaluation)
             idx = sorted(pick)
             ctx.hit("elements_not_judged", n - len(idx))
         ref = R.REF[kind]
@@ -184,6 +188,7 @@ def run(ctx):
     with Reach(funcs) as reach, Probe() as probe:
         mon = MembershipMonitor(ctx, fl)
         mon.install(probe)
+        mon.keeper = ResultKeeper(ctx)
         for i, rnd in ctx.cases("terms", len(kinds) * nparam):
             kind = kinds[i % len(kinds)]
             lo, hi, d = ranges(rnd)
@@ -259,6 +264,39 @@ def run(ctx):
                         setattr(term, attr, v)
                     ctx.hit("event:parameters changed between calls")
                     term.membership(buf)
+        # large batches: sizes on both sides of every power of two from 2^12 to 2^17 (block-wise fast paths), with NaN and +-inf
+        # among the values; 1-D and as a transposed matrix
+        for i, rnd in ctx.cases("sizes", len(kinds)):
+            kind = kinds[i]
+            lo, hi, d = ranges(rnd)
+            spec = G.shape_term(rnd, "t", lo, hi, kind=kind, d=d, degenerate=False)
+            term = G.build_term(fl, spec)
+            gen = np.random.default_rng(ctx.seed * 100 + i)
+            for n in [2**k + dd for k in range(12, 18, 1) for dd in (0, 1)][:: 1 if ctx.thorough else 2] + [100_000]:
+                x = lo - 0.25 * (hi - lo) + gen.random(n) * 1.5 * (hi - lo)
+                x[:: 1013] = math.nan
+                x[5:: 2027] = math.inf
+                x[-3] = -math.inf
+                term.membership(x)
+                if n % 2 == 0:
+                    term.membership(x.reshape(2, -1).T)
+            ctx.hit("workload:large batch")
+        # a Discrete term whose pairs are put in order by sort(): the pairs stay pairs, and a sorted term is left as it is
+        for i, rnd in ctx.cases("discrete-sort", ctx.scale(30, 600)):
+            n = rnd.randint(2, 7)
+            xs = rnd.sample([k / 8 for k in range(-16, 17)], n)
+            ys = [rnd.choice([0.0, 1.0, rnd.random()]) for _ in range(n)]
+            term = fl.Discrete("d", fl.Discrete.to_xy(xs, ys))
+            want = sorted(zip(xs, ys))
+            for _ in range(2):
+                term.sort()
+                ctx.evaluated()
+                got = [(float(a), float(b)) for a, b in np.asarray(term.values).tolist()]
+                if got != [(float(a), float(b)) for a, b in want]:
+                    ctx.violation("Discrete.sort() does not keep the (x, y) pairs together in ascending order of x", {"x": xs, "y": ys}, want, got)
+                    break
+            term.membership(np.array(sorted(xs) + [-3.0, 3.0, math.nan]))
+            ctx.hit("event:Discrete sorted before evaluation")
         # Constant as the degenerate case
         for i, rnd in ctx.cases("constant", ctx.scale(20, 400)):
             c = fl.Constant("k", rnd.choice([0.0, 1.5, -3.25, rnd.uniform(-10, 10), math.inf]))
@@ -267,7 +305,7 @@ def run(ctx):
         mon.check_monotonic()
         probe.report(ctx)
         reach.report(ctx)
-    ctx.require("x form:transposed", "x form:integer array", "x form:read-only row broadcast over a batch")
+    ctx.require("workload:large batch", "event:Discrete sorted before evaluation", "law:results of earlier calls left alone", "x form:transposed", "x form:integer array", "x form:read-only row broadcast over a batch")
     for k in kinds:
         ctx.require(f"hook:{k}.membership", f"piece:{k}:nan-x", f"piece:{k}:infinite-x")
     if ctx.nshards == 1:
